@@ -90,6 +90,9 @@ def cases(tier, seed):
                 ka, kb = ka[:8], kb[:8]
             out.append(dict(kind='rp', cfg=cfg, ka=list(ka), kb=list(kb)))
         out.append(dict(kind='rp-identity', cfg=cfg, ka=list(pats[-1][:10])))
+        if d <= 4 and not cfg.get('wrapper'):
+            for _ in range(2 if tier == 'quick' else 6):
+                out.append(dict(kind='registered', cfg=cfg, ka=list(rng.choice(pats)[:6]), kb=list(rng.choice(pats)[:6])))
     return out
 
 
@@ -145,6 +148,24 @@ def _body(desc, V, alg):
         claims += mv_eq_claims('rp=unhodge(hodge^hodge)', r, coeffs((a.hodge() ^ b.hodge()).unhodge()))
         claims += mv_eq_claims('rp=ref', r, ops.ref_binary(km, 'rp', A, B))
         claims += mv_eq_claims('rp-method', a.rp(b), coeffs(r))
+        return claims
+    if kind == 'registered':
+        # the same relations with the left-hand sides compiled by alg.register (TapeRecorder route)
+        b = mv(alg, V, 'b', desc['kb'])
+        ns = {}
+        exec('def reg_hh(x):\n    return x.hodge().unhodge()\n'
+             'def reg_uh(x):\n    return x.unhodge().hodge()\n'
+             'def reg_h(x):\n    return x.hodge()\n'
+             'def reg_u(x):\n    return x.unhodge()\n'
+             'def reg_rp(x, y):\n    return (x.hodge() ^ y.hodge()).unhodge()\n'
+             'def reg_du(x):\n    return x.dual().undual()\n', ns)
+        claims += mv_eq_claims('reg:unhodge(hodge)', alg.register(ns['reg_hh'])(a), A)
+        claims += mv_eq_claims('reg:hodge(unhodge)', alg.register(ns['reg_uh'])(a), A)
+        claims += mv_eq_claims('reg:hodge', alg.register(ns['reg_h'])(a), coeffs(a.hodge()))
+        claims += mv_eq_claims('reg:unhodge', alg.register(ns['reg_u'])(a), coeffs(a.unhodge()))
+        claims += mv_eq_claims('reg:rp', alg.register(ns['reg_rp'])(a, b), coeffs(a & b))
+        if alg.r <= 1:
+            claims += mv_eq_claims('reg:undual(dual)', alg.register(ns['reg_du'])(a), A)
         return claims
     if kind == 'rp-identity':
         pss = alg.pss
